@@ -467,4 +467,76 @@ theorem bpkiShare_canonical (x : List UInt8) (hl : x.length < W) (c : Nat) (st :
     rw [if_neg (by omega), if_neg (by omega), pki_enc _ _ v ok_share ok_m256 (by rw [len_share, len_m256]; omega), hx, ho]
 
 
+/-! ### EncryptedPrivateKeyInfo -/
+
+theorem sizeDec_lt (xs : List UInt8) (v c : Nat) (h : derTSIZEDec xs 2 = .ok (v, c)) : v < W := by
+  obtain ⟨k, k2, len, _, _, _, _, _, _, d0, tl, _, _, _, _, hv⟩ := derTSIZEDec_spec xs 2 v c h
+  rw [hv]; exact Nat.mod_lt _ (by decide)
+
+theorem str_pbes2 : ∀ b ∈ oid_id_pbes2, b ≠ 0 := by decide +kernel
+theorem str_pbkdf2 : ∀ b ∈ oid_id_pbkdf2, b ≠ 0 := by decide +kernel
+theorem str_hmac : ∀ b ∈ oid_hmac_hbelt, b ≠ 0 := by decide +kernel
+theorem str_kwp : ∀ b ∈ oid_belt_kwp256, b ≠ 0 := by decide +kernel
+
+set_option maxRecDepth 8000 in
+/-- canonical form of EncryptedPrivateKeyInfo: the accepted octets are the code of the tree of the
+    decoded (edata, salt, iter) -/
+theorem edata_can (x : List UInt8) (hl : x.length < W) (c : Nat) (st : DSt) (h : bpkiEdataDec x = .ok (c, st)) :
+    c ≤ x.length ∧ ∃ edata salt iter, st.outs = [salt, edata] ∧ st.nums = [iter] ∧ salt.length = 8 ∧ iter < W ∧
+      x.take c = Tree.codeL [edataTree edata salt iter] := by
+  have oidc := fun (oid : List UInt8) (hok : (derOIDEnc oid).isOk = true) (hs : ∀ b ∈ oid, b ≠ 0) =>
+    Can.prim (oidDec2 oid) (fun c => c = oidCode oid) (fun xs c hl h => oidDec2_can oid hok hs xs c hl h)
+  have null := Can.prim nullDec (fun c => c = tlvCode 5 []) (fun xs c hl h => nullDec_can xs c hl h)
+  have prf := Can.seq 5 48 (Can.append (oidc _ ok_hmac str_hmac) null) (by simp)
+  have lsalt := Can.out (fun r => derTOCTDec2 r 4 8) (fun v c => c = tlvCode 4 v ∧ v.length = 8)
+    (fun xs v c hl h => by obtain ⟨a, b, d⟩ := octDec2_can xs 8 v c hl h; exact ⟨a, b, d⟩)
+  have liter := Can.num (fun r => derTSIZEDec r 2) (fun v c => c = sizeCode 2 v ∧ v < W)
+    (fun xs v c hl h => by obtain ⟨a, b⟩ := sizeDec_can xs v c hl h; exact ⟨a, b, sizeDec_lt xs v c h⟩)
+  have params := Can.seq 4 48 (Can.append lsalt (Can.append liter prf)) (by simp)
+  have pbkdf2 := Can.seq 3 48 (Can.append (oidc _ ok_pbkdf2 str_pbkdf2) params) (by simp)
+  have kwp := Can.seq 6 48 (Can.append (oidc _ ok_kwp str_kwp) null) (by simp)
+  have pbes2 := Can.seq 2 48 (Can.append pbkdf2 kwp) (by simp)
+  have encalg := Can.seq 1 48 (Can.append (oidc _ ok_pbes2 str_pbes2) pbes2) (by simp)
+  have ledata := Can.out (fun r => derTOCTDec r 4) (fun v c => c = tlvCode 4 v)
+    (fun xs v c hl h => octDec_can xs v c hl h)
+  have epki := Can.seq 0 48 (Can.append encalg ledata) (by simp)
+  unfold bpkiEdataDec at h
+  obtain ⟨_, hcl, hrel, _⟩ := epki.run x 0 {} c st hl (Nat.zero_le _) h
+  refine ⟨hcl, ?_⟩
+  simp only [List.drop_zero, Nat.sub_zero] at hrel
+  obtain ⟨p0, c0, ⟨s1, a1, a2, hc0,
+      ⟨p1, c1, ⟨s2, b1, b2, hc1, ⟨hs2, hb1⟩,
+        ⟨p2, c2, ⟨s3, d1, d2, hc2,
+          ⟨p3, c3, ⟨s4, e1, e2, hc3, ⟨hs4, he1⟩,
+            ⟨p4, c4, ⟨s5, f1, f2, hc4, ⟨salt, hs5, hf1, hsl⟩,
+              ⟨s6, g1, g2, hf2, ⟨iter, hs6, hg1, hit⟩,
+                ⟨p5, c5, ⟨s7, i1, i2, hc5, ⟨hs7, hi1⟩, ⟨hs8, hi2⟩⟩, hg2, _⟩⟩⟩, he2, _⟩⟩, hd1, _⟩,
+          ⟨p6, c6, ⟨s9, j1, j2, hc6, ⟨hs9, hj1⟩, ⟨hs10, hj2⟩⟩, hd2, _⟩⟩, hb2, _⟩⟩, ha1, _⟩,
+      ⟨edata, hst, ha2⟩⟩, hx, _⟩ := hrel
+  subst hs2 hs4 hs7 hs9
+  refine ⟨edata, salt, iter, ?_, ?_, hsl, hit, ?_⟩
+  · rw [hst, hs10, hs8, hs6, hs5]; try rfl
+  · rw [hst, hs10, hs8, hs6, hs5]; try rfl
+  · rw [hx, hc0, ha1, hc1, hb1, hb2, hc2, hd1, hc3, he1, he2, hc4, hf1, hf2, hg1, hg2, hc5, hi1, hi2, hd2, hc6, hj1, hj2, ha2]
+    simp only [edataTree, Tree.codeL, Tree.code, tlvCode, List.append_nil, List.append_assoc]
+
+
+theorem edataTree_len_ge (edata salt : List UInt8) (iter : Nat) :
+    edata.length ≤ (Tree.codeL [edataTree edata salt iter]).length := by
+  simp only [edataTree, Tree.codeL, Tree.code, tlvCode, List.length_append, List.append_nil]
+  omega
+
+/-- CANONICAL (EncryptedPrivateKeyInfo): an accepted container is exactly bpkiEdataEnc of the
+    (edata, salt, iter) it yields — in particular every nested SEQUENCE length is the right one -/
+theorem bpkiEdata_canonical (x : List UInt8) (hl : x.length < 4294967296) (c : Nat) (st : DSt)
+    (h : bpkiEdataDec x = .ok (c, st)) :
+    c ≤ x.length ∧ ∃ edata salt iter, st.outs = [salt, edata] ∧ st.nums = [iter] ∧
+      bpkiEdataEnc edata salt iter = .ok (x.take c) := by
+  obtain ⟨hc, edata, salt, iter, ho, hn, hs, hi, hx⟩ := edata_can x (by omegaW) c st h
+  refine ⟨hc, edata, salt, iter, ho, hn, ?_⟩
+  have hle := edataTree_len_ge edata salt iter
+  rw [← hx] at hle
+  have : (x.take c).length ≤ x.length := by simp [List.length_take]; omega
+  rw [edata_enc edata salt iter hs hi (by omega), hx]
+
 end Bee2V.C08
